@@ -424,3 +424,68 @@ def align_lines(inputs, r):
         # more output than input: misaligned
         return outs, -1
     return outs, None
+
+
+# ---------------------------------------------------------------------------
+def esc(b):
+    """escape one driver field (bytes or str) -> str"""
+    if b is None:
+        return "-"
+    if isinstance(b, str):
+        b = b.encode("utf-8", "surrogateescape")
+    if b == b"-":
+        return "\\x2d"
+    out = []
+    for c in b:
+        if c == 0x5c:
+            out.append("\\\\")
+        elif c == 9:
+            out.append("\\t")
+        elif c == 10:
+            out.append("\\n")
+        elif 0x20 <= c < 0x7f:
+            out.append(chr(c))
+        else:
+            out.append("\\x%02x" % c)
+    return "".join(out)
+
+
+def req(*fields):
+    return "\t".join(esc(f) for f in fields)
+
+
+def drive(binpath, requests, sh=None, cpu=20, wall=120, env=None, argv_extra=(), max_restarts=50):
+    """send REQUESTS (list of str lines) to a line-protocol driver.
+
+    Returns (answers, deaths): answers[i] is the answer line (str) or None when
+    the driver died while working on request i; deaths = list of (index, Res).
+    The driver is restarted behind each fatal request so one defect does not
+    mask the rest of the batch."""
+    answers = [None] * len(requests)
+    deaths = []
+    pos = 0
+    restarts = 0
+    while pos < len(requests):
+        chunk = requests[pos:]
+        r = run([str(binpath)] + list(argv_extra), stdin=("\n".join(chunk) + "\n").encode("latin-1"),
+                cpu=cpu, wall=wall, env=env)
+        if sh is not None:
+            sh.procs += 1
+        outl = r.out.decode("latin-1").split("\n")
+        if outl and outl[-1] == "":
+            outl.pop()
+        n = min(len(outl), len(chunk))
+        for k in range(n):
+            answers[pos + k] = outl[k]
+        if n == len(chunk) and r.sig is None:
+            if r.san_kind() is not None:
+                # non-fatal (recoverable) report somewhere in the batch
+                deaths.append((-1, r))
+            break
+        # died / stalled at request pos+n
+        deaths.append((pos + n, r))
+        pos = pos + n + 1
+        restarts += 1
+        if restarts > max_restarts:
+            break
+    return answers, deaths
